@@ -176,6 +176,11 @@ const char* CompileException::ContinueJumpLocOverflow::what() const noexcept
     return "increase CONTINUE_JUMP_LOCATION_COUNT and recompile";
 }
 
+const char* CompileException::TooManyParameters::what() const noexcept
+{
+    return "too many parameters";
+}
+
 const char* CompileException::IllegalBreak::what() const noexcept
 {
     return "illegal break";
